@@ -892,3 +892,227 @@ func init() {
 		Doc: "the MRO lookup (py.Type.Lookup, helpers put back) ranges over the receiver's Mro and assigns nothing but its own locals: nothing is memoised across calls (a cache would need invalidation in every subclass, which the type does not track)",
 		Run: runLookupPure})
 }
+
+// ---- C11.R12: a constant index is covered by the length test that guards it ----
+//
+// `if len(s) >= 2 && s[2] == 'x'`: the author tested the length, but one short. Where an index or slice bound with a
+// constant K on a string or slice s is governed by tests of len(s) against constants — the left operands of the &&/||
+// it sits in, the conditions of the ifs around it, earlier ifs that leave — the strongest of them must establish
+// len(s) > K (for a slice bound: len(s) >= K). The rule says nothing about accesses without any length test (C11.R6
+// decides those that exist in the reference); it decides the off-by-one between a test and the access it is there for.
+func runLenGuardCovers(c *Ctx, r *Rep) {
+	n := 0
+	for _, rel := range pipelinePkgs {
+		p := c.Pkg(rel)
+		if p == nil {
+			continue
+		}
+		info := p.TypesInfo
+		for _, f := range c.Files(p) {
+			if fn := fileOf(c, f.Pos()); fn == "y.go" {
+				continue
+			}
+			for _, d := range f.Decls {
+				fd, ok := d.(*ast.FuncDecl)
+				if !ok || fd.Body == nil {
+					continue
+				}
+				id := declID(p, fd)
+				// lower bound on len(base) established by cond being true (neg=false) or false (neg=true); -1 = none
+				var bound func(cond ast.Expr, base string, neg bool) int64
+				bound = func(cond ast.Expr, base string, neg bool) int64 {
+					cond = unparen(cond)
+					if u, ok := cond.(*ast.UnaryExpr); ok && u.Op == token.NOT {
+						return bound(u.X, base, !neg)
+					}
+					be, ok := cond.(*ast.BinaryExpr)
+					if !ok {
+						return -1
+					}
+					if be.Op == token.LAND && !neg || be.Op == token.LOR && neg {
+						a, b := bound(be.X, base, neg), bound(be.Y, base, neg)
+						if b > a {
+							a = b
+						}
+						return a
+					}
+					if be.Op == token.LAND || be.Op == token.LOR {
+						return -1
+					}
+					op := be.Op
+					lenSide, kSide := be.X, be.Y
+					if call, ok := unparen(be.Y).(*ast.CallExpr); ok && exprStr(call.Fun) == "len" {
+						lenSide, kSide, op = be.Y, be.X, flipOp(op)
+					}
+					call, ok := unparen(lenSide).(*ast.CallExpr)
+					if !ok || exprStr(call.Fun) != "len" || len(call.Args) != 1 || exprStr(call.Args[0]) != base {
+						return -1
+					}
+					k, isK := constInt(info, kSide)
+					if !isK {
+						return -1
+					}
+					if neg {
+						op = map[token.Token]token.Token{token.LSS: token.GEQ, token.LEQ: token.GTR, token.GTR: token.LEQ, token.GEQ: token.LSS, token.EQL: token.NEQ, token.NEQ: token.EQL}[op]
+					}
+					switch op {
+					case token.GEQ:
+						return k
+					case token.GTR:
+						return k + 1
+					case token.EQL:
+						return k
+					case token.NEQ:
+						if k == 0 {
+							return 1
+						}
+					}
+					return -1
+				}
+				var stack []ast.Node
+				ast.Inspect(fd.Body, func(nd ast.Node) bool {
+					if nd == nil {
+						stack = stack[:len(stack)-1]
+						return true
+					}
+					stack = append(stack, nd)
+					var base ast.Expr
+					var need int64 = -1
+					var what string
+					switch x := nd.(type) {
+					case *ast.IndexExpr:
+						if k, ok := constInt(info, x.Index); ok && k >= 0 {
+							if tv, ok := info.Types[x.X]; ok {
+								switch tv.Type.Underlying().(type) {
+								case *types.Slice, *types.Basic:
+									base, need, what = x.X, k+1, exprStr(x)
+								}
+							}
+						}
+					case *ast.SliceExpr:
+						for _, bnd := range []ast.Expr{x.Low, x.High} {
+							if bnd == nil {
+								continue
+							}
+							if k, ok := constInt(info, bnd); ok && k > need-0 && k >= 1 {
+								base, need, what = x.X, k, exprStr(x)
+							}
+						}
+					}
+					if base == nil {
+						return true
+					}
+					bs := exprStr(base)
+					// the tests that govern this access
+					best := int64(-1)
+					seen := false
+					guardPos := nd.Pos()
+					var curPos token.Pos
+					note := func(b int64) {
+						if b >= 0 {
+							seen = true
+							if b > best {
+								best = b
+							}
+							if curPos < guardPos {
+								guardPos = curPos
+							}
+						}
+					}
+					for i := len(stack) - 2; i >= 0; i-- {
+						child := stack[i+1]
+						switch par := stack[i].(type) {
+						case *ast.BinaryExpr:
+							curPos = par.Pos()
+							if par.Y == child && par.Op == token.LAND {
+								note(bound(par.X, bs, false))
+							}
+							if par.Y == child && par.Op == token.LOR {
+								note(bound(par.X, bs, true))
+							}
+						case *ast.IfStmt:
+							curPos = par.Cond.Pos()
+							if par.Body == child {
+								note(bound(par.Cond, bs, false))
+							}
+							if par.Else == child {
+								note(bound(par.Cond, bs, true))
+							}
+						case *ast.BlockStmt:
+							// earlier `if bad { leave }` statements of this block
+							for _, st := range par.List {
+								if st == child {
+									break
+								}
+								if is, ok := st.(*ast.IfStmt); ok && is.Else == nil && blockTerminates(is.Body) {
+									curPos = is.Pos()
+									note(bound(is.Cond, bs, true))
+								}
+							}
+						case *ast.FuncLit:
+							i = -1
+						}
+					}
+					if !seen {
+						return true
+					}
+					// a test only speaks for the access if nothing in between can change the length
+					if best < need && lenMayChangeBetween(fd.Body, bs, guardPos, nd.Pos()) {
+						return true
+					}
+					n++
+					key := fmt.Sprintf("lenguard|%s|%s", id, what)
+					r.check(best >= need, key, nd.Pos(),
+						fmt.Sprintf("the length tests around it establish len(%s) >= %d", bs, best),
+						fmt.Sprintf("`%s` needs len(%s) >= %d, but the length tests that govern it only establish len(%s) >= %d: the test is one short, and for a source text of exactly that length the access panics (reported as SystemError by the stage barrier)", what, bs, need, bs, best))
+					return true
+				})
+			}
+		}
+	}
+	if n == 0 {
+		r.undecided("lenguard|sites", token.NoPos, "no constant index governed by a length test found in the pipeline packages (expected the lexer's look-ahead tests)")
+	}
+}
+
+func init() {
+	register(&Rule{ID: "C11.R12", Prop: "C11", Floor: 3,
+		Doc: "in the pipeline packages a constant index (or slice bound) K on s that is governed by tests of len(s) against constants — enclosing &&/||, enclosing ifs, earlier ifs that leave — is covered by the strongest of them (len(s) > K): the off-by-one between a length test and the access it guards",
+		Run: runLenGuardCovers})
+}
+
+// lenMayChangeBetween: between two positions of a function body the string/slice `base` is assigned, or — for a field of
+// a receiver — a method is called on that receiver (which may cut or extend it).
+func lenMayChangeBetween(body *ast.BlockStmt, base string, from, to token.Pos) bool {
+	root := base
+	if i := strings.IndexAny(root, ".["); i >= 0 {
+		root = root[:i]
+	}
+	changed := false
+	ast.Inspect(body, func(n ast.Node) bool {
+		if n == nil || changed {
+			return false
+		}
+		if n.End() < from || n.Pos() > to {
+			return n.Pos() <= to && n.End() >= from
+		}
+		switch x := n.(type) {
+		case *ast.AssignStmt:
+			if x.Pos() >= from && x.Pos() < to {
+				for _, l := range x.Lhs {
+					if s := exprStr(l); s == base || s == root {
+						changed = true
+					}
+				}
+			}
+		case *ast.CallExpr:
+			if x.Pos() >= from && x.End() <= to && root != base {
+				if sel, ok := x.Fun.(*ast.SelectorExpr); ok && exprStr(sel.X) == root {
+					changed = true
+				}
+			}
+		}
+		return true
+	})
+	return changed
+}
